@@ -79,6 +79,16 @@ class LrnNoParams:
         pass
 
 
+class _Unwritable:
+    """a value neither json nor coba's registry can write"""
+
+
+def _interrupted(rows):
+    for r in rows:
+        yield r
+    raise KeyboardInterrupt()
+
+
 class Evl:
     """evaluator whose output rows are looked up in `table[(env.tag, lrn.tag)]`.
 
@@ -92,6 +102,7 @@ class Evl:
         self.table = table
         self.lazy = lazy
         self.skip = set()
+        self.poison = {}
         self.calls = []
 
     @property
@@ -107,6 +118,19 @@ class Evl:
         if key in self.skip:
             raise RuntimeError("planned evaluator failure on %r" % (key,))
         rows = self._rows(key)
+        poison = getattr(self, "poison", None) or {}
+        if key in poison:
+            # the evaluation of this triple makes the whole run stop: a cell the encoder cannot write (set / plain object) or Ctrl-C
+            kind, ri = poison[key]
+            if kind == "interrupt":
+                if not self.lazy:
+                    raise KeyboardInterrupt()
+                return _interrupted(rows[:ri])
+            bad = {1, 2} if kind == "set" else _Unwritable()
+            if rows:
+                rows[ri % len(rows)]["bad"] = bad
+            else:
+                rows = [{"bad": bad}]
         if self.lazy:
             return (r for r in rows)
         return rows
